@@ -6,8 +6,11 @@
      2. SCRIPT_NAME_REGEX / comp_hash_mapping - RuntimeError for a malformed part, KeyError for an unknown class hash
      3. PLACEHOLDER_REGEX.sub         - one pass that replaces placeholders and sets the two did_find flags
      4. _insert_js_css_to_default_locations (document mode, some kind without placeholder): finditer loop over
-        head_or_body_end_tag_re, then two slice insertions with the index_offset arithmetic of the code
-     5. fragment mode: JS appended
+        head_or_body_end_tag_re - run (since fix b234f8a) on the MASKED copy of the content, in which the text
+        substituted at every placeholder is blanked out by NUL symbols of the same length -, then two slice
+        insertions into the substituted content with the index_offset arithmetic of the code (fix fa2cce9)
+     5. fragment mode: placeholders replaced by nothing, JS appended
+     6. the str / SafeString / bytes round trip, and the middleware guard
 
    Symbols are code points.  Passes 1-3 run on UTF-8 bytes in the code; every literal and every character class
    of the two bytes-mode patterns is ASCII or "any byte but ...", and all bytes of a multi-byte UTF-8 sequence
@@ -293,15 +296,18 @@ Definition place_m (t : str) (css_c js_c : option str) (fh lb : option nat) : op
   | _, _ => if modified then Some u else None
   end.
 
-Definition insert_default (t : str) (js_c css_c : option str) : option str :=
+(* _insert_js_css_to_default_locations(html_content=t, js_content, css_content, search_content=search):
+   the finditer loop runs over `search` (same length as t), the slices are taken from t *)
+Definition insert_default (search t : str) (js_c css_c : option str) : option str :=
   match css_c, js_c with
   | None, None => None
-  | _, _ => let '(fh, lb) := find_loop (is_some css_c) (is_some js_c) t 0 0 None None in
+  | _, _ => let '(fh, lb) := find_loop (is_some css_c) (is_some js_c) search 0 0 None None in
             place_m t css_c js_c fh lb
   end.
 
 (* ---------- render_dependencies ---------- *)
 Inductive rtype := Document | Fragment.
+Definition is_document (ty : rtype) : bool := match ty with Document => true | Fragment => false end.
 Inductive err := EMalformed (* RuntimeError("Malformed dependencies data") *) | EKeyError (* unknown class hash *).
 Inductive res (A : Type) := ROk (a : A) | RErr (e : err).
 Arguments ROk {A} a.
@@ -316,16 +322,28 @@ Definition part_known (c : cfg) (p : str) : bool :=
 
 Definition repl (js css : str) (k : kind) : str := match k with KCss => css | KJs => js end.
 
-Definition render_doc (js css : str) (t : str) : str :=
-  let pt := ph_tokens t in
-  let t' := subst (repl js css) pt in
-  let fc := has KCss pt in
-  let fj := has KJs pt in
-  if fc && fj then t'
-  else match insert_default t' (if fj then None else Some js) (if fc then None else Some css) with
-       | Some x => x
-       | None => t'
-       end.
+(* the blanked-out copy (since fix b234f8a): b"\x00" * len(on_replace_match(m).decode()) for every placeholder *)
+Definition mask (r : kind -> str) (k : kind) : str := repeat 0%N (length (r k)).
+
+(* the part of render_dependencies after _process_dep_declarations; t = content with the markers deleted *)
+Definition render_body (ty : rtype) (js css : str) (t : str) : str :=
+  (* css_replacement / js_replacement: the tags in document mode, b"" in fragment mode *)
+  let r := if is_document ty then repl js css else (fun _ => []) in
+  let pt := ph_tokens t in                       (* matches of PLACEHOLDER_REGEX in content_before_replace *)
+  let t1 := subst r pt in                        (* content_ = PLACEHOLDER_REGEX.sub(on_replace_match, content_) *)
+  let fc := has KCss pt in                       (* did_find_css_placeholder *)
+  let fj := has KJs pt in                        (* did_find_js_placeholder *)
+  let t2 :=
+    if is_document ty && (negb fj || negb fc) then
+      let masked := subst (mask r) pt in
+      match insert_default masked t1 (if fj then None else Some js) (if fc then None else Some css) with
+      | Some x => x                              (* maybe_transformed is not None *)
+      | None => t1
+      end
+    else t1 in
+  if is_document ty then t2 else t2 ++ js.       (* fragment: content_ += js_dependencies *)
+
+Definition render_doc (js css : str) (t : str) : str := render_body Document js css t.
 
 Definition render (c : cfg) (ty : rtype) (d : str) : res str :=
   let parts := harvest d in
@@ -333,20 +351,22 @@ Definition render (c : cfg) (ty : rtype) (d : str) : res str :=
   else if negb (forallb (part_known c) parts) then RErr EKeyError
   else
     let '(js, css) := deps c ty parts in
-    let t := erase_markers d in
-    match ty with
-    | Document => ROk (render_doc js css t)
-    | Fragment => ROk (erase_ph t ++ js)
-    end.
+    ROk (render_body ty js css (erase_markers d)).
 
-(* str / SafeString / bytes: the result carries the type of the input *)
+(* str / SafeString / bytes.  The code: is_safestring = isinstance(content, SafeString); isinstance(content, str)
+   decides encode on entry and decode on exit (SafeString is a str subclass); mark_safe(output) if is_safestring. *)
 Inductive ckind := CStr | CSafe | CBytes.
 Definition ckind_eqb (a b : ckind) : bool :=
   match a, b with CStr, CStr => true | CSafe, CSafe => true | CBytes, CBytes => true | _, _ => false end.
+Definition isinstance_str (k : ckind) : bool := match k with CBytes => false | _ => true end.
+Definition isinstance_safe (k : ckind) : bool := match k with CSafe => true | _ => false end.
+Definition out_kind (k : ckind) : ckind :=
+  let plain := if isinstance_str k then CStr else CBytes in        (* content_.decode() if str else content_ *)
+  if isinstance_safe k then (match plain with CStr => CSafe | x => x end) else plain.   (* mark_safe(str) *)
 
 Definition render_any (c : cfg) (ty : rtype) (k : ckind) (d : str) : res (ckind * str) :=
   match render c ty d with
-  | ROk o => ROk (k, o)
+  | ROk o => ROk (out_kind k, o)
   | RErr e => RErr e
   end.
 
